@@ -106,6 +106,10 @@ pub struct Node {
     // utilize this to simulate node being connected.
     #[cfg(test)]
     enabled_as_connected: AtomicBool,
+
+    /// Verification hook: bit 0 = override active, bit 1 = enabled, bit 2 = connected.
+    #[cfg(scylla_verif)]
+    verif_state: std::sync::atomic::AtomicU8,
 }
 
 /// A way that Nodes are often passed and accessed in the driver's code.
@@ -144,6 +148,8 @@ impl Node {
             pool: Some(pool),
             #[cfg(test)]
             enabled_as_connected: AtomicBool::new(false),
+            #[cfg(scylla_verif)]
+            verif_state: std::sync::atomic::AtomicU8::new(0),
         }
     }
 
@@ -161,6 +167,8 @@ impl Node {
             pool: None,
             #[cfg(test)]
             enabled_as_connected: AtomicBool::new(false),
+            #[cfg(scylla_verif)]
+            verif_state: std::sync::atomic::AtomicU8::new(0),
         }
     }
 
@@ -185,6 +193,10 @@ impl Node {
             pool: node.pool.clone(),
             #[cfg(test)]
             enabled_as_connected: AtomicBool::new(node.enabled_as_connected.load(Ordering::SeqCst)),
+            #[cfg(scylla_verif)]
+            verif_state: std::sync::atomic::AtomicU8::new(
+                node.verif_state.load(std::sync::atomic::Ordering::SeqCst),
+            ),
         }
     }
 
@@ -211,6 +223,13 @@ impl Node {
     /// Returns true if the driver has any open connections in the pool for this
     /// node.
     pub fn is_connected(&self) -> bool {
+        #[cfg(scylla_verif)]
+        {
+            let st = self.verif_state.load(std::sync::atomic::Ordering::SeqCst);
+            if st & 1 != 0 {
+                return st & 2 != 0 && st & 4 != 0;
+            }
+        }
         #[cfg(test)]
         if self.enabled_as_connected.load(Ordering::SeqCst) {
             return self.is_enabled();
@@ -225,7 +244,22 @@ impl Node {
     /// Only enabled nodes will have connections open. For disabled nodes,
     /// no connections will be opened.
     pub fn is_enabled(&self) -> bool {
+        #[cfg(scylla_verif)]
+        {
+            let st = self.verif_state.load(std::sync::atomic::Ordering::SeqCst);
+            if st & 1 != 0 {
+                return st & 2 != 0;
+            }
+        }
         self.pool.is_some()
+    }
+
+    /// Verification hook: pretend that this (pool-less) node is enabled / connected.
+    #[cfg(scylla_verif)]
+    pub fn verif_override_state(&self, enabled: bool, connected: bool) {
+        let st = 1 | if enabled { 2 } else { 0 } | if connected { 4 } else { 0 };
+        self.verif_state
+            .store(st, std::sync::atomic::Ordering::SeqCst);
     }
 
     /// Signals the node's connection pool to retry connecting immediately,
@@ -467,6 +501,8 @@ mod tests {
                 rack,
                 pool: None,
                 enabled_as_connected: AtomicBool::new(false),
+                #[cfg(scylla_verif)]
+                verif_state: std::sync::atomic::AtomicU8::new(0),
             }
         }
 
